@@ -55,6 +55,42 @@ def check_tables(ctx, prog, R):
     ctx.sample({"rule": "tables", "size_classes": ks, "key_free_heads": [kf[0], kf[-1]], "val_free_heads": [vf[0], vf[-1]]})
 
 
+def _position_of_equal(prog, fn, L, b):
+    """the index is `size_ary.iter().position(|&sz| sz == <size parameter>)` (Some arm)"""
+    from .util import origins, leaf_origins
+    os_ = origins(prog, fn, {"k": "cp", "pl": {"l": L, "p": []}}, at=b)
+    if not os_:
+        return False
+    for o in os_:
+        if not (o.kind == "call" and o.data.get("resolved", "").endswith("::position") or (o.kind == "call" and (o.data.get("callee") or "").endswith("Iterator::position"))):
+            return False
+        if not any(p_.startswith("dc:Some") for p_ in o.proj):
+            return False
+        t = o.data
+        # receiver: an iterator over the size-class table
+        recv = leaf_origins(prog, fn, t["args"][0], at=o.block, terminal_only=True)
+        if not (recv and all(x.kind == "param" and x.data == 1 and x.proj and any(p_.endswith(dot(prog, "MGR.sizes")) for p_ in x.proj) for x in recv)):
+            return False
+        # the closure: element == captured size parameter
+        cls = prog.closures_of(fn)
+        good = False
+        for c in cls:
+            conds = [x for blk in c.blocks for x in blk["stmts"] if x["s"] == "assign" and x["rhs"]["rv"] == "bin" and x["rhs"]["op"] == "Eq"]
+            if len(conds) == 1:
+                rv = conds[0]["rhs"]
+                sides = [origins(prog, c, rv["a"]), origins(prog, c, rv["b"])]
+                is_elem = lambda s_: bool(s_) and all(x.kind == "param" and x.data == 2 for x in s_)
+                is_cap = lambda s_: bool(s_) and all(x.kind == "param" and x.data == 1 for x in s_)
+                good = (is_elem(sides[0]) and is_cap(sides[1])) or (is_elem(sides[1]) and is_cap(sides[0]))
+                # the captured value is the size parameter of fn
+                if good:
+                    cap = leaf_origins(prog, fn, t["args"][1], at=o.block, terminal_only=True)
+                    good = bool(cap) and all(x.kind == "param" and x.data == 2 for x in cap)
+        if not good:
+            return False
+    return True
+
+
 def check_class_slot(ctx, prog, R):
     """The size class of a slot selects its free-list head: wherever the mapping function returns `free_list_offset[j]`,
     either j is the last index (the shared list of large slots) or the return is guarded by `size_ary[j] == <size param>`
@@ -94,6 +130,8 @@ def check_class_slot(ctx, prog, R):
                     cm = cn.op({"k": "cp", "pl": {"l": int(x[2][1][4:]), "p": []}}, sb)
                     if k7.same(cm, cj) and cj[0] != "?":
                         guarded = True
+        if not guarded and not is_last:
+            guarded = _position_of_equal(prog, fn, L, b)
         n_eq += guarded
         n_last += is_last and not guarded
         ctx.check(guarded or is_last, "class-slot", "index-agreement:%s" % k7.expr_str(cj),
